@@ -161,6 +161,12 @@ def run(tier):
               sr.loc, "serialState->params.customMem recorded before the LDM tables are allocated",
               "LDM tables can be allocated before the allocator that ZSTDMT_serialState_free will use is recorded")
     # constructors that can return NULL are themselves checked by their callers
+    # frozen guards of lib/compress for the error codes this property owns (shared inventory, split by code)
+    import json as _json, os as _os
+    from ..rules import guards as _guards
+    _inv = [e for e in _json.load(open(_os.path.join(_os.path.dirname(_os.path.abspath(__file__)), "inv", "compress_all.json"))) if set(e["codes"]) & {'memory_allocation'}]
+    _guards.check_inventory(prog, res, 'T8.frozen-guards(memory_allocation)', _inv)
+    res.need('T8.frozen-guards(memory_allocation)', 18)
     return res.finish(
         explanation="Allocation discipline over lib/, lib/dictBuilder, lib/legacy and contrib/seekable_format: raw "
                     "malloc/free only in the allocator shims; every allocation result (including the custom "
